@@ -204,8 +204,9 @@ def gen_dyadic_spec(rng):
         lab["minPos"] = rng.choice([0, None, 10, -20])
     if rng.random() < 0.5:
         lab["algorithm"] = rng.choice(["overlap", "simple", "none"])
-    if rng.random() < 0.4:
-        lab["density"] = rng.choice([0.75, 0.5, 1])
+    # always a dyadic density: with the default 0.85 the product density * layerWidth is rounded (0.85 * 200 is 170.0 in floating point and a
+    # hair less exactly), and a layer that needs exactly 170 then fits in one world and not in the other
+    lab["density"] = rng.choice([0.75, 0.75, 0.5, 1])
     if rng.random() < 0.3:
         lab["stubWidth"] = rng.choice([1, 2, 0])
     if rng.random() < 0.2:
